@@ -131,7 +131,7 @@ func init() {
 			}
 			return true
 		})
-		c.MinCount("R23d", "context-accumulation statements", n, 18)
+		c.MinCount("R23d", "context-accumulation statements", n, 12)
 		c.MinCount("R23d", "switches with both free-text arms", nPairs, 5)
 	})
 }
